@@ -34,6 +34,14 @@ def plan(tier):
     if tier == 'thorough':
         fam(5, 'A3', 'full', 2)
         fam(6, 'A2', 'lite', 2)
+    from vmc import history
+
+    for st in HIST_STARTS:
+        c0 = history.start(st)
+        t.append({'kind': 'hist', 'start': st, 'prefix': [], 'depth': 1})
+        if tier == 'thorough':
+            for op in history.menu(c0, 'nocomp'):
+                t.append({'kind': 'hist', 'start': st, 'prefix': [op], 'depth': 2})
     # cycle check: all digraphs on m gate nodes + 1 input
     for m in (1, 2, 3):
         t.append({'kind': 'cyc', 'm': m, 'first': None})
@@ -97,9 +105,16 @@ def check_dag(n, gates, acc, starts_mode, only=None, scrambled=False):
             c.rename_gate(l + '_t', l)
         if list(c.gates)[:1] == labs[:1] and len(labs) > 1:
             acc.violation('harness/scramble-failed', lambda: space.spec_json(n, gates, outs), str(list(c.gates)))
+    check_traversals(acc, c, net, labs, starts_mode, space.spec_json(n, gates, outs), only, scrambled)
+    acc.sample({**space.spec_json(n, gates, outs), 'mode': 'dfs', 'inverse': False, 'start': None})
+
+
+def check_traversals(acc, c, net, labs, starts_mode, base, only=None, scrambled=False):
+    """Traversal oracle on an arbitrary real circuit `c` whose netlist is `net` (reachability is derived from
+    the operand tuples only, never from the library's users index)."""
     users = net.users()
     acc.states += 1
-    case0 = lambda: space.spec_json(n, gates, outs)  # noqa: E731
+    case0 = lambda: dict(base)  # noqa: E731
     # top_sort, both directions (via the shared well-formedness predicate)
     acc.transitions += 2
     probs = refmodel.wellformed(c)
@@ -117,7 +132,7 @@ def check_dag(n, gates, acc, starts_mode, only=None, scrambled=False):
                     acc.traces += 1
                     if scrambled and not tsu:
                         continue
-                    case = lambda: {**space.spec_json(n, gates, outs), 'mode': mode, 'inverse': inverse, 'start': start, 'topsort_unvisited': tsu, 'scrambled': scrambled}  # noqa: E731
+                    case = lambda: {**base, 'mode': mode, 'inverse': inverse, 'start': start, 'topsort_unvisited': tsu, 'scrambled': scrambled}  # noqa: E731
                     ev = []
                     # "nosy" hooks look up the state of every gate in the mapping they are handed
                     nosy = tsu and start is None
@@ -197,7 +212,17 @@ def check_dag(n, gates, acc, starts_mode, only=None, scrambled=False):
                         if bad:
                             acc.violation('dfs/not-post-order', case, f'{bad}: {ev}')
                     acc.outcome('trace', (mode, inverse, len(reach), len(un), tsu))
-    acc.sample({**space.spec_json(n, gates, outs), 'mode': 'dfs', 'inverse': False, 'start': None})
+
+
+HIST_STARTS = ('S1', 'S2', 'S4', 'S6', 'S7')
+
+
+def hist_monitor(c, start_name, hist, acc):
+    try:
+        net = refmodel.abstract(c)
+    except Exception:  # noqa: BLE001
+        return
+    check_traversals(acc, c, net, list(net.gates), 'lite', {'start_state': start_name, 'history': hist})
 
 
 def _cyc_graphs(m, first=None):
@@ -256,6 +281,11 @@ def check_cyc(m, first, acc, only=None, outs_mode='all'):
 
 
 def run_task(task, acc):
+    if task['kind'] == 'hist':
+        from vmc import history
+        from vmc.props.c14 import _NeverSeen
+
+        return history.explore(task['start'], task['prefix'], task['depth'], acc, hist_monitor, level='nocomp', seen=_NeverSeen())
     if task['kind'] == 'cyc':
         return check_cyc(task['m'], task['first'], acc, None, task.get('outs', 'all'))
     alpha = ALPHAS[task['alpha']]
@@ -268,6 +298,13 @@ def run_task(task, acc):
 def replay(case, acc):
     if 'task' in case:
         return run_task(case['task'], acc)
+    if 'history' in case:
+        from vmc import history
+
+        c = history.replay(case['start_state'], case['history'])
+        only = [case['mode'], case['inverse'], case['start'], case['topsort_unvisited']] if 'mode' in case else None
+        net = refmodel.abstract(c)
+        return check_traversals(acc, c, net, list(net.gates), 'lite', {'start_state': case['start_state'], 'history': case['history']}, only)
     if 'bench' in case:
         from cirbo.core.circuit import Circuit
         from cirbo.core.circuit.exceptions import CircuitValidationError
